@@ -17,7 +17,8 @@
 //!   //@sig <file> | <sel> | <fn> | <expected real signature>      (whitespace-insensitive)                (E2)
 //!   //@struct <file> | <Name> | <expected field list>             (whitespace-insensitive)                (E2)
 //!   (automatic) `_ = e;` inside a pasted body becomes `let _ = e;`                                        (E9)
-//!   //@paste <file> | <sel> | <fn>            replaced by the verbatim body of that function
+//!   //@paste <file> | <sel> | <fn> [| as <key>]   replaced by the verbatim body of that function; <key> (default: <fn>) is the
+//!                                             name under which //@closure, //@loop, //@replace address this paste
 //! <sel>: "<Trait> for <Type>", "inherent <Type>", "trait <Trait>" (default method) or "free" (free function).
 //!
 //! exit status: 0 ok; 2 = undecided (lost anchor, changed signature, rule that no longer applies, parse error).
@@ -340,6 +341,9 @@ fn main() {
             undecided(format!("bad directive: {}", t));
         }
         let (file, sel, name) = (parts[0], parts[1], parts[2]);
+        // optional 4th field of //@paste: `as <alias>` -- the key under which //@closure, //@loop and //@replace directives
+        // address this paste (needed when several pasted functions share a name)
+        let key: &str = if is_paste && parts.len() >= 4 { parts[3].strip_prefix("as ").map(|x| x.trim()).unwrap_or(name) } else { name };
         load(&mut cache, file);
         let (src, parsed) = cache.get(file).unwrap();
         let (fsig, fblock) = find_fn(parsed, sel, name).unwrap_or_else(|| undecided(format!("LOST-ANCHOR {} | {} | {}", file, sel, name)));
@@ -360,8 +364,8 @@ fn main() {
         let empty = HashMap::new();
         let mut ed = Edits {
             ghost: &ghost,
-            closure_specs: closure_specs.get(name).unwrap_or(&empty),
-            loop_specs: loop_specs.get(name).unwrap_or(&empty),
+            closure_specs: closure_specs.get(key).unwrap_or(&empty),
+            loop_specs: loop_specs.get(key).unwrap_or(&empty),
             closure_no: 0,
             loop_no: 0,
             used_closure: vec![],
@@ -369,12 +373,12 @@ fn main() {
             ins: vec![],
         };
         ed.visit_block(fblock);
-        for k in closure_specs.get(name).map(|m| m.keys().cloned().collect::<Vec<_>>()).unwrap_or_default() {
+        for k in closure_specs.get(key).map(|m| m.keys().cloned().collect::<Vec<_>>()).unwrap_or_default() {
             if !ed.used_closure.contains(&k) {
                 undecided(format!("LOST-ANCHOR closure #{} of {} ({} closures found)", k, name, ed.closure_no));
             }
         }
-        for k in loop_specs.get(name).map(|m| m.keys().cloned().collect::<Vec<_>>()).unwrap_or_default() {
+        for k in loop_specs.get(key).map(|m| m.keys().cloned().collect::<Vec<_>>()).unwrap_or_default() {
             if !ed.used_loop.contains(&k) {
                 undecided(format!("LOST-ANCHOR loop #{} of {} ({} loops found)", k, name, ed.loop_no));
             }
@@ -384,7 +388,7 @@ fn main() {
         let mut ins = ed.ins;
         let (lo, hi) = (br.start + 1, br.end - 1);
         // declared textual replacements
-        if let Some(rs) = replaces.get(name) {
+        if let Some(rs) = replaces.get(key) {
             for (from, to, optional) in rs {
                 let hay = &src[lo..hi];
                 let mut found = 0;
